@@ -21,7 +21,7 @@ na = {
 }
 checks = {
 "C11": dict(engine="abortsim", category="fault_enumeration",
-  text="The parse budget is a cooperative fault point compiled into the parser (abort at step n+1, recovered into an error). For each sampled input (the repository's parser tests, seeded grammar derivations, token-level mutations, early-failing inputs with a long unread tail, flat chains of 60-300 terms, nested parentheses to depth 16 whose unlimited parse is never run) every abort point is enumerated - all n in [1,S+2] when the unlimited parse takes S<=1500/4096 steps; n<=64, S+-k, a geometric sweep to 2^18/2^22, seeded samples and huge budgets up to 2^64-1 otherwise - through both grammar.Parse+MaxExpressions and bexpr.CreateEvaluator+WithMaxExpressions (with other options around it), each API driven reference-first or limited-first (threshold located through the public option before any unlimited parse of that input). Oracles: budget 0 = no budget; the result is exactly the unlimited one or nil + max-expressions error; the threshold is monotone and exceeds the instrumented step count by at most one; parseExpr entries counted by instrumentation never exceed n+1; statements executed stay proportional to n; an aborted parse leaves no residue for later parses; the result for a budget does not depend on what was parsed before, nor - a second phase on the simsched engine - on what other callers parse at the same time (2-4 callers creating evaluators with budgets around the measured step counts under seeded schedules), nor - a volume phase on the untouched build - on how many hostile inputs the process has refused before (30 000-120 000 distinct refusals under budget B per worker process, then 80 000 / 1 500 000 distinct harmless inputs far below B that must all parse). Complete per input over abort points; inputs are sampled, so this is evidence, not proof.",
+  text="The parse budget is a cooperative fault point compiled into the parser (abort at step n+1, recovered into an error). For each sampled input (the repository's parser tests, seeded grammar derivations, token-level mutations, early-failing inputs with a long unread tail, flat chains of 60-300 terms, nested parentheses to depth 16 whose unlimited parse is never run) every abort point is enumerated - all n in [1,S+2] when the unlimited parse takes S<=1500/4096 steps; n<=64, S+-k, a geometric sweep to 2^18/2^22, seeded samples and huge budgets up to 2^64-1 otherwise - through both grammar.Parse+MaxExpressions and bexpr.CreateEvaluator+WithMaxExpressions (with other options around it, and as the last of several budget options in one list), each API driven reference-first or limited-first (threshold located through the public option before any unlimited parse of that input). Oracles: budget 0 = no budget; the result is exactly the unlimited one or nil + max-expressions error; the threshold is monotone and exceeds the instrumented step count by at most one; parseExpr entries counted by instrumentation never exceed n+1; statements executed stay proportional to n; an aborted parse leaves no residue for later parses; the result for a budget does not depend on what was parsed before, nor - a second phase on the simsched engine - on what other callers parse at the same time (2-4 callers creating evaluators with budgets around the measured step counts under seeded schedules), nor - a volume phase on the untouched build - on how many hostile inputs the process has refused before (30 000-120 000 distinct refusals under budget B per worker process, then 80 000 / 1 500 000 distinct harmless inputs far below B that must all parse). Complete per input over abort points; inputs are sampled, so this is evidence, not proof.",
   design="4.4",
   note="Trusted: the AST instrumenter (checked on every run by running the repository's own suite on the instrumented copy), the step definition (entry of (*parser).parseExpr in the current tree; if that function disappears only the proportional bound applies), the learned text of the budget error (taken from budget 1 on a calibration input, not copied from the source).",
   technique="deterministic simulation: enumeration of injected abort points (parse budget) inside a running parse, differential against the unlimited run"),
@@ -36,7 +36,7 @@ checks = {
   note="Trusted: the fingerprint covers everything reachable by reflection; the fresh object is the reference (the implementation is its own oracle for what a result should be). Hook panics are not injected (the library promises nothing about them).",
   technique="deterministic simulation: seeded operation histories with in-operation fault injection, checked op by op against a stateless reference (fresh object)"),
 "C12": dict(engine="simsched", category="exploration",
-  text="k=2..4 caller goroutines share evaluators/filters/data (mixed plans, hammer plans where every caller makes the same calls on one object, plans where callers only create their own objects); a cooperative scheduler that the race detector cannot see (plain loads/stores + Gosched, //go:norace) decides at statement granularity which caller runs, from seeded plans (back-to-back, PCT-style change points per operation, store-window bias, sync-gap bias right after lock/unlock/atomic statements, dense first-use, round-robin quanta, lockstep). Goroutines, channels, select, WaitGroups and timers inside the library itself are modelled (they become tasks and hand-offs of the same scheduler). Plans are executed in-process (throughput), cold, and in a first-use phase (hammer plans, each in a fresh process); cold means: generated by a purely sequential process, executed concurrent-run-first in fresh processes of the plain and the -race build. Oracles: every concurrent call returns what a fresh object returns sequentially; the outcome classes of the concurrent run and of the sequential run that follows it equal those of the sequential generating process (damage that outlives the objects); no ThreadSanitizer report (judged only by the synchronisation the library itself performs); shared data fingerprints and returned values unchanged; no deadlock on modelled locks or channels. Seeded search over schedules: evidence, not proof.",
+  text="k=2..4 caller goroutines share evaluators/filters/data, sometimes through by-value copies of one evaluator made before first use (mixed plans, hammer plans where every caller makes the same calls on one object, plans where callers only create their own objects); a cooperative scheduler that the race detector cannot see (plain loads/stores + Gosched, //go:norace) decides at statement granularity which caller runs, from seeded plans (back-to-back, PCT-style change points per operation, store-window bias, sync-gap bias right after lock/unlock/atomic statements, dense first-use, round-robin quanta, lockstep). Goroutines, channels, select, WaitGroups and timers inside the library itself are modelled (they become tasks and hand-offs of the same scheduler). Plans are executed in-process (throughput), cold, and in a first-use phase (hammer plans, each in a fresh process); cold means: generated by a purely sequential process, executed concurrent-run-first in fresh processes of the plain and the -race build. Oracles: every concurrent call returns what a fresh object returns sequentially; the outcome classes of the concurrent run and of the sequential run that follows it equal those of the sequential generating process (damage that outlives the objects); no ThreadSanitizer report (judged only by the synchronisation the library itself performs); shared data fingerprints and returned values unchanged; no deadlock on modelled locks or channels. Seeded search over schedules: evidence, not proof.",
   design="4.1",
   note="Trusted: ThreadSanitizer as shipped with the Go toolchain (its verdict is a proof when it reports; sync.Pool randomness under -race makes silence non-deterministic, so confirmations retry); statement-level yields (interleavings inside reflect/regexp/pointerstructure calls are not split); Mutex/RWMutex/Once/WaitGroup.Wait and go statements inside the library are modelled (spawned goroutines become tasks), channels/select/Cond are reported as unmodelled (a run that blocks on one ends in exit 2).",
   technique="deterministic simulation: seeded cooperative scheduling of caller goroutines with the race detector as in-run monitor and sequential-equivalence oracle"),
